@@ -1,6 +1,7 @@
 package props
 
 import (
+	"github.com/skx/evalfilter/v2/object"
 	"context"
 	"encoding/json"
 	"errors"
@@ -104,6 +105,27 @@ func (s *sharedObject) set(o *eng.ObjSpec) interface{} {
 	return o.Build()
 }
 
+// registerStep registers the host function an "addfn" step describes: it
+// leaves its mark in the trace, hands its first argument back (so "id" keeps
+// its meaning) or, without arguments, the step's value.
+func registerStep(r *eng.Runner, s HistStep) {
+	name, mark, val := s.Name, fmt.Sprintf("%s#%s", s.Name, s.V.Inspect()), s.V
+	r.E.AddFunction(name, func(args []object.Object) object.Object {
+		parts := make([]string, len(args))
+		for i, a := range args {
+			parts[i] = string(a.Type()) + ":" + a.Inspect()
+		}
+		r.Trace = append(r.Trace, mark+"("+strings.Join(parts, ",")+")")
+		if name == "trace" {
+			return &object.Void{}
+		}
+		if len(args) > 0 {
+			return args[0]
+		}
+		return eng.ToObject(val)
+	})
+}
+
 type histStats struct {
 	runs, abnormal, followUps int
 }
@@ -129,10 +151,17 @@ func runHistory(c *HistCase) (histStats, error) {
 	}
 	pool0 := constPool(used)
 	sawAbnormal := false
+	var regs []HistStep
 	for si, s := range c.Steps {
 		switch s.Op {
 		case "set":
 			used.E.SetVariable(s.Name, eng.ToObject(s.V))
+		case "addfn":
+			// the host registers a function (again, or for the first time under
+			// the name of one of the script's own): from the next run on it is
+			// the one that is called
+			registerStep(used, s)
+			regs = append(regs, s)
 		case "cancel":
 			cancel()
 		case "run":
@@ -147,6 +176,9 @@ func runHistory(c *HistCase) (histStats, error) {
 			fresh, ferr := mk(before)
 			if ferr != nil {
 				return st, fmt.Errorf("step %d: fresh evaluator rejected the script: %v", si, ferr)
+			}
+			for _, rs := range regs {
+				registerStep(fresh, rs)
 			}
 			obj := c.Objs[s.Obj%len(c.Objs)]
 			var oa, ob interface{}
@@ -247,6 +279,15 @@ func TestC07(t *testing.T) {
 		}
 		n := rapid.IntRange(2, maxSteps).Draw(rt, "nsteps")
 		for i := 0; i < n; i++ {
+			if gen.Uniform(rt, "addfn", 12) == 0 {
+				names := []string{"id", "trace", "id"}
+				for _, m := range funcNameRe.FindAllStringSubmatch(c.Script, -1) {
+					names = append(names, m[1])
+				}
+				c.Steps = append(c.Steps, HistStep{Op: "addfn", Name: rapid.SampledFrom(names).Draw(rt, "fnname"), V: lang.Int(int64(100 + i))})
+				col.Class("history-with-host-function-registered-between-runs")
+				continue
+			}
 			if gen.Uniform(rt, "stepkind", 5) == 0 {
 				name := rapid.SampledFrom([]string{"g0", "g1", "a", "b", "C0", "s0", "x1"}).Draw(rt, "setname")
 				c.Steps = append(c.Steps, HistStep{Op: "set", Name: name, V: gen.Scalar(rt, "setval", lang.KInt, lang.KInt, lang.KString, lang.KBool, lang.KFloat)})
@@ -270,6 +311,8 @@ func TestC07(t *testing.T) {
 			for _, s := range cc.Steps {
 				if s.Op == "run" {
 					steps = append(steps, fmt.Sprintf("run(obj%d)", s.Obj))
+				} else if s.Op == "addfn" {
+					steps = append(steps, fmt.Sprintf("AddFunction(%s)", s.Name))
 				} else {
 					steps = append(steps, fmt.Sprintf("set(%s=%s)", s.Name, s.V.Describe()))
 				}
